@@ -79,6 +79,7 @@ func runC02(r *harness.Run) {
 	}
 	pr.runGens(gens, order)
 	c02LongTail(r)
+	runPinned(r, "C02")
 	// the values of a resume arrive as the results of the pending yield also when the HOST resumes
 	// (LState.Resume with 0/1/3 values against call sites that expect 0, 1, 3 or all results)
 	c06GoAPI(r, c06Bodies())
